@@ -50,6 +50,7 @@ PLAN = {
     "C10": {
         "level": "proof",
         "contracts": ["contracts.tree"],
+        "bounded": ["bounded.c10"],
     },
     "C09": {
         "level": "proof",
